@@ -150,7 +150,7 @@ func storeOp(c *Ctx, op string, a map[string]string) {
 	}
 	sort.Strings(keys)
 	for _, k := range keys {
-		if k != "got" {
+		if k != "got" && k != "trace" {
 			line += " " + k + "=" + a[k]
 		}
 	}
@@ -333,7 +333,11 @@ func storeOp(c *Ctx, op string, a map[string]string) {
 			if rig.kind != "redis" {
 				return "n/a"
 			}
-			return redisSched(a["ih"], a["progs"], a["sched"])
+			// what each round trip turned out to be (the collector's discarded transactions and reads are no steps)
+			// goes onto the op line: the model checks that this trace is one of its own and leads to the same states
+			tr, obs := redisSched(a["ih"], a["progs"], a["sched"])
+			line += " trace=" + tr
+			return obs
 		case "st.redis_gc_double":
 			// two tracker instances share the Redis and each runs its own expiry loop: instance 0's pass is parked right
 			// before the transaction that unregisters an emptied swarm, instance 1 runs a whole pass, instance 0 goes on
@@ -561,10 +565,18 @@ func runStore(c *Ctx, pf storeProfile) {
 
 // redisSched runs the programs (one goroutine and one store instance per thread, all on the shared Redis) under a
 // scheduler that lets exactly one thread perform exactly one round trip at a time, in the order given by sched; a
-// thread that has finished (or does not exist) makes its entry a no-op. After the schedule the server state is read
-// straight from the Redis (mid), then every thread is run to completion, thread 0 first. Reported: the mid state and
-// the operations in the order of their first round trips with their results.
-func redisSched(ihHex, progsArg, schedArg string) string {
+// thread that has finished (or does not exist) makes its entry a no-op. A program is a list of announce-path
+// operations, or `gc:<cutoff>`: one expiry pass. After the schedule the server state is read straight from the Redis
+// (mid), then every thread is run to completion, thread 0 first. Reported: the trace (which thread took which step:
+// `t` = the next round trip of an announce-path thread; for a collector only the round trips that change the server:
+// `t:H:<swarm key>` = its removal group went through, `t:I:<swarm key>` = its unregistering group went through,
+// `t:d` = a DECRBY/DECR; `|` marks the end of the schedule), the mid state, and the announce-path operations in the
+// order of their first round trips with their results.
+// how many of the collector's transactions the server discarded in the last st.redis_sched (statistics only)
+var lastSchedDiscards int
+
+func redisSched(ihHex, progsArg, schedArg string) (string, string) {
+	lastSchedDiscards = 0
 	type sop struct{ kind, pk string }
 	var progs [][]sop
 	for _, t := range strings.Split(progsArg, "|") {
@@ -573,7 +585,7 @@ func redisSched(ihHex, progsArg, schedArg string) string {
 			for _, o := range strings.Split(t, ";") {
 				kv := strings.SplitN(o, ":", 2)
 				if len(kv) != 2 {
-					return "bad-progs"
+					return "-", "bad-progs"
 				}
 				pr = append(pr, sop{kv[0], kv[1]})
 			}
@@ -585,7 +597,7 @@ func redisSched(ihHex, progsArg, schedArg string) string {
 		for _, x := range strings.Split(schedArg, ",") {
 			n, err := strconv.Atoi(x)
 			if err != nil {
-				return "bad-sched"
+				return "-", "bad-sched"
 			}
 			sched = append(sched, n)
 		}
@@ -598,9 +610,17 @@ func redisSched(ihHex, progsArg, schedArg string) string {
 		grant   chan struct{}
 		done    chan struct{}
 		first   bool
+		gc      bool
+		event   string // what the last round trip of a collector did to the server ("" = nothing)
 		results []string
 		state   int // 0 running, 1 parked, 2 done
 		atFirst bool
+	}
+	short := func(k string) string { // IPv4_S_<hex> -> v4S:<hex>
+		if len(k) < 8 {
+			return "?" + k
+		}
+		return "v" + k[3:4] + k[5:6] + ":" + k[7:]
 	}
 	ths := make([]*thr, n)
 	for t := 0; t < n; t++ {
@@ -608,15 +628,36 @@ func redisSched(ihHex, progsArg, schedArg string) string {
 			PrometheusReportingInterval: time.Hour, PeerLifetime: time.Hour, RedisReadTimeout: 10 * time.Second,
 			RedisWriteTimeout: 10 * time.Second, RedisConnectTimeout: 10 * time.Second})
 		if err != nil {
-			return "new-failed"
+			return "-", "new-failed"
 		}
 		th := &thr{ps: ps, parked: make(chan bool), grant: make(chan struct{}), done: make(chan struct{})}
+		th.gc = len(progs[t]) == 1 && progs[t][0].kind == "gc"
 		ths[t] = th
-		redis.VerifHookBeforeDo(ps, func(string) {
+		redis.VerifTraceConn(ps, func(string) {
 			f := th.first
 			th.first = false
 			th.parked <- f
 			<-th.grant
+		}, func(cmd string, sent [][]interface{}, reply interface{}, err error) {
+			th.event = ""
+			switch cmd {
+			case "EXEC":
+				arr, ok := reply.([]interface{})
+				if err != nil || !ok || len(arr) == 0 || len(sent) < 2 || len(sent[1]) < 3 {
+					if th.gc {
+						lastSchedDiscards++
+					}
+					return // discarded (or not a group of the collector)
+				}
+				key := fmt.Sprint(sent[1][1])
+				if key == "IPv4" || key == "IPv6" {
+					th.event = "I:" + short(fmt.Sprint(sent[1][2]))
+				} else {
+					th.event = "H:" + short(key)
+				}
+			case "DECRBY", "DECR", "INCR":
+				th.event = "d"
+			}
 		})
 	}
 	var order []([2]int) // (thread, index of the operation in its program)
@@ -644,6 +685,13 @@ func redisSched(ihHex, progsArg, schedArg string) string {
 				}
 			}()
 			for _, o := range progs[t] {
+				if o.kind == "gc" {
+					cut, _ := strconv.ParseInt(o.pk, 10, 64)
+					if err := redis.VerifCollectGarbage(th.ps, cut); err != nil {
+						th.results = append(th.results, "gc-err")
+					}
+					continue
+				}
 				p := peerFromKey(unhx(o.pk))
 				th.first = true
 				var err error
@@ -671,17 +719,24 @@ func redisSched(ihHex, progsArg, schedArg string) string {
 		}(t)
 		wait(t)
 	}
+	var trace []string
 	step := func(t int) {
 		th := ths[t]
 		if th.state != 1 {
 			return
 		}
-		if th.atFirst {
+		if th.atFirst && !th.gc {
 			order = append(order, [2]int{t, started[t]})
 			started[t]++
 		}
+		th.event = ""
 		th.grant <- struct{}{}
 		wait(t)
+		if !th.gc {
+			trace = append(trace, strconv.Itoa(t))
+		} else if th.event != "" {
+			trace = append(trace, strconv.Itoa(t)+":"+th.event)
+		}
 	}
 	for _, t := range sched {
 		if t >= 0 && t < n {
@@ -689,6 +744,7 @@ func redisSched(ihHex, progsArg, schedArg string) string {
 		}
 	}
 	mid := redisDump(rig.mr)
+	trace = append(trace, "|")
 	for t := 0; t < n; t++ {
 		for ths[t].state == 1 {
 			step(t)
@@ -702,8 +758,12 @@ func redisSched(ihHex, progsArg, schedArg string) string {
 		}
 		lg = append(lg, fmt.Sprintf("%d:%s", e[0], r))
 	}
-	for _, th := range ths {
+	gcres := ""
+	for t, th := range ths {
+		if th.gc && len(th.results) > 0 {
+			gcres += fmt.Sprintf(" gc%d=%s", t, strings.Join(th.results, "+"))
+		}
 		<-th.ps.Stop()
 	}
-	return "mid=" + mid + " log=[" + strings.Join(lg, ",") + "]"
+	return strings.Join(trace, ","), "mid=" + mid + " log=[" + strings.Join(lg, ",") + "]" + gcres
 }
